@@ -837,38 +837,33 @@ structure Visit where
   err : Option Err := none
   deriving DecidableEq, Repr
 
-mutual
 /-- `io/fs.walkDir(fsys, name, d, fn)` through the public API (path based, as the layer writer and
 the recursive permissions mutation run it), with a callback that never skips.  `none`: the nesting
 exceeded `fuel` — with the fuel of `walkDirOp` that happens only below a directory that contains
-itself, where the Go function never returns.  `tr` is the path rewriting of the view the walk runs
-on (`id`, or `join2 root` for a `SubFS`). -/
+itself, where the Go function never returns (`Proofs/Lemmas/FSWalkDir.lean`: never on a well-formed
+state).  `tr` is the path rewriting of the view the walk runs on (`id`, or `join2 root` for a
+`SubFS`). -/
 def walkDirP (c : Cfg) (fs : FS) (tr : Text → Text) : Nat → Text → Bool → Option (List Visit)
   | 0, _, _ => none
   | fuel + 1, name, isDir =>
     if !isDir then some [{ path := name, isDir := false }] else
     match (step c fs (.readDir (tr name))).2 with
     | .ok (.entries es) =>
-      (walkKidsP c fs tr fuel name es).map fun vs => { path := name, isDir := true } :: vs
+      es.foldl (fun (acc : Option (List Visit)) e =>
+        match acc with
+        | none => none
+        | some vs =>
+          match walkDirP c fs tr fuel (join2 name e.name) e.isDir with
+          | none => none
+          | some v1 => some (vs ++ v1)) (some [{ path := name, isDir := true }])
     | .err e => some [{ path := name, isDir := true }, { path := name, isDir := true, err := some e }]
     | _ => some [{ path := name, isDir := true }]
-def walkKidsP (c : Cfg) (fs : FS) (tr : Text → Text) : Nat → Text → List StatInfo → Option (List Visit)
-  | 0, _, _ => none
-  | _, _, [] => some []
-  | fuel + 1, name, e :: rest =>
-    match walkDirP c fs tr fuel (join2 name e.name) e.isDir with
-    | none => none
-    | some v1 =>
-      match walkKidsP c fs tr fuel name rest with
-      | none => none
-      | some v2 => some (v1 ++ v2)
-end
 
 /-- `fs.WalkDir(fsys, root, fn)` -/
 def walkDirOp (c : Cfg) (fs : FS) (tr : Text → Text) (root : Text) : Option (List Visit) :=
   match (step c fs (.stat (tr root))).2 with
   | .ok (.stat s) =>
-    walkDirP c fs tr (2 * fs.nodes.length + 4 + (fs.nodes.map (·.children.length)).sum) root s.isDir
+    walkDirP c fs tr (fs.nodes.length + 2) root s.isDir
   | .err e => some [{ path := root, isDir := false, err := some e }]
   | _ => some []
 
